@@ -3,7 +3,7 @@
 From Coq Require Import List ZArith Bool Reals.
 Import ListNotations.
 From FV.C20 Require Import Model ModelReindex ProofsCanon ProofsMerge ProofsVol ProofsTransfer
-  ProofsCheck ProofsReindex.
+  ProofsCheck ProofsReindex ProofsExtra.
 
 (* ---- merge step (merge_polyhedrons on one connected group) -------------
    hypothesis wf_poly: faces have >= 3 pairwise distinct nodes and every
@@ -15,6 +15,11 @@ Proof. exact merge_wf. Qed.
 
 Theorem C20_merge_closed : forall ps, Forall wf_poly ps -> closed (merge ps).
 Proof. exact merge_closed. Qed.
+
+(* the hypothesis cannot be weakened to the set-based `closed` that
+   check_polyhedron tests: edge multiplicities matter *)
+Theorem C20_merge_closed_needs_balance : exists ps, Forall closed ps /\ ~ closed (merge ps).
+Proof. exact merge_closed_needs_balance. Qed.
 
 (* for EVERY node placement (no planarity or convexity assumption) the
    centroid-formula volume of the merged cell is the sum of the volumes of the
@@ -50,6 +55,19 @@ Theorem C20_sum_conserves_total : forall (A : bmat) (x : list R),
   Forall (fun k => (0 < k)%nat) (colsums (length x) A) ->
   sumT ROps (sum_tr ROps A x) = sumT ROps x.
 Proof. exact sum_conserves_total. Qed.
+
+(* the decompression direction, stated for the transpose of the M x n matrix *)
+Theorem C20_mean_preserves_const_T : forall (A : bmat) (n : nat) (c : R),
+  Forall (fun r => length r = n) A ->
+  Forall (fun k => (0 < k)%nat) (colsums n A) ->
+  mean_tr ROps (transpose n A) (repeat c (length A)) = repeat c n.
+Proof. exact mean_preserves_const_T. Qed.
+
+Theorem C20_sum_conserves_total_T : forall (A : bmat) (n : nat) (x : list R),
+  Forall (fun r => length r = n) A -> length x = length A ->
+  Forall (fun r => (0 < rowsum r)%nat) A ->
+  sumT ROps (sum_tr ROps (transpose n A) x) = sumT ROps x.
+Proof. exact sum_conserves_total_T. Qed.
 
 (* the expression the code evaluates for kind="sum" on (N,1) data (x / wt with
    wt of shape (1,N)) does NOT conserve the total: finding, see
